@@ -14,6 +14,8 @@ From BV Require Import Lib.PyVal Model.Heap Model.SharedMem Model.SharedHop Mode
   Gen.G_sharedmem.
 From BV Require Import Proofs.HeapGeo Proofs.HeapInv Proofs.SharedMemProofs Proofs.SharedMemLockProofs Proofs.SharedMemGen
   Proofs.SharedHopProofs Proofs.SharedMemHist Proofs.SharedMemLockArg Proofs.SharedHopDropProofs.
+From BV Require Import Model.SharedFork Proofs.SharedForkProofs.
+From BV Require Model.SemProg Model.SemFork Gen.G_semfork.
 Import ListNotations.
 Open Scope Z_scope.
 
@@ -358,6 +360,75 @@ Theorem C15_unlocked_increment_refuted :
                 all_done w = true /\ w_val w = 1.
 Proof. exact unlocked_loses_update. Qed.
 Print Assumptions C15_unlocked_increment_refuted.
+
+(* ---- atomic, with FORKS (Model/SharedFork.v) ----
+   The lock is no longer ideal: one kernel semaphore shared by all processes + in every process a copy of the lock
+   object with its own ownership count, acquired/released by the C17 primitive (SemProg.sem_acq / sem_rel).  Updaters
+   are processes; FFork i k = process i forks -- at any point, also from inside its `with v.get_lock():` block -- an
+   updater that makes k locked increments.  The child's copy of the lock object is the parent's (count and all)
+   unless the after-fork hook registered by SemLock.__init__ resets it: WHERE that registration stands is read from
+   the code on this run (G_semfork.semlock_after_fork_guard); [named] = whether the primitive keeps its name (spawn /
+   forkserver) or not (fork start method). *)
+Theorem C15_code_after_fork_reset : forall named,
+  SemFork.resets_after_fork G_semfork.semlock_after_fork_guard named = true /\
+  G_semfork.forked_child_runs_after_fork_hooks_before_target = true.
+Proof. intros named. split; [apply gen_fork_reset|exact gen_fork_hooks_run]. Qed.
+Print Assumptions C15_code_after_fork_reset.
+
+(* any number of initial updaters, any iteration counts, ANY history of steps and forks: the value is the initial value
+   plus the completed stores; when everybody is finished it is the initial value plus the number of increments all
+   updaters, initial and forked, were started with *)
+Theorem C15_fork_no_lost_update : forall named n k v0 acts,
+  let w := frun (gen_reset named) SharedMem.incr_prog (fworld_init v0 n k) acts in
+  fw_val w = v0 + ftotal (fw_threads w) /\
+  (fall_done w = true -> fw_val w = v0 + started (fw_threads w)).
+Proof. exact G_fork_no_lost_update. Qed.
+Print Assumptions C15_fork_no_lost_update.
+
+Theorem C15_fork_mutual_exclusion : forall named n k v0 acts i j ti tj,
+  let w := frun (gen_reset named) SharedMem.incr_prog (fworld_init v0 n k) acts in
+  nth_error (fw_threads w) i = Some ti -> nth_error (fw_threads w) j = Some tj ->
+  ft_pc ti <> 0%nat -> ft_pc tj <> 0%nat -> i = j.
+Proof. exact G_fork_mutual_exclusion. Qed.
+Print Assumptions C15_fork_mutual_exclusion.
+
+(* while process i is inside its `with lock:` block no other process can take a step -- a child forked from inside the
+   block waits for the parent's release -- and a fork (by anybody) leaves the value, the semaphore and process i alone:
+   the value does not change under a held lock *)
+Theorem C15_fork_child_waits_for_parent : forall named n k v0 acts i ti,
+  let w := frun (gen_reset named) SharedMem.incr_prog (fworld_init v0 n k) acts in
+  nth_error (fw_threads w) i = Some ti -> ft_pc ti <> 0%nat ->
+  (forall j, j <> i -> fstep SharedMem.incr_prog w j = None) /\
+  (forall j k' w', fdo (gen_reset named) SharedMem.incr_prog w (FFork j k') = Some w' ->
+                   fw_val w' = fw_val w /\ fw_sem w' = fw_sem w /\ nth_error (fw_threads w') i = Some ti).
+Proof. exact G_fork_others_blocked. Qed.
+Print Assumptions C15_fork_child_waits_for_parent.
+
+Theorem C15_fork_no_deadlock : forall named n k v0 acts,
+  let w := frun (gen_reset named) SharedMem.incr_prog (fworld_init v0 n k) acts in
+  fall_done w = false -> exists i w', fstep SharedMem.incr_prog w i = Some w'.
+Proof. exact G_fork_no_deadlock. Qed.
+Print Assumptions C15_fork_no_deadlock.
+
+(* the reset is what gives it: without it (hook not registered for the lock), an updater that takes the lock, reads 0
+   and forks from inside its critical section loses an update -- the child believes it owns the lock, both are inside,
+   the value changes under the held lock, two increments end at 1 *)
+Theorem C15_fork_without_reset_refuted :
+  (let w := frun false SharedMem.incr_prog (fworld_init 0 1 1) lost_update_acts in
+   fall_done w = true /\ started (fw_threads w) = 2 /\ fw_val w = 1) /\
+  (let w1 := frun false SharedMem.incr_prog (fworld_init 0 1 1) [FStep 0; FStep 0; FStep 0; FFork 0 1] in
+   let w2 := frun false SharedMem.incr_prog w1 (repeat (FStep 1) 6) in
+   map ft_pc (fw_threads w1) = [3; 0]%nat /\ fw_val w1 = 0 /\
+   map ft_pc (fw_threads w2) = [3; 6]%nat /\ fw_val w2 = 1 /\ SemProg.val (fw_sem w2) = 0).
+Proof. split; [exact fork_without_reset_loses_update|exact fork_without_reset_two_inside]. Qed.
+Print Assumptions C15_fork_without_reset_refuted.
+
+(* non-vacuity: the same history with the reset: the child stays blocked while the parent is inside, nothing is lost *)
+Example C15_witness_fork_under_lock :
+  let w := frun true SharedMem.incr_prog (fworld_init 0 1 1) lost_update_acts in
+  map ft_pc (fw_threads w) = [0; 0]%nat /\ map ft_left (fw_threads w) = [0; 1]%nat /\ fw_val w = 1 /\
+  fw_val (frun true SharedMem.incr_prog w (repeat (FStep 1) 8)) = 2.
+Proof. exact fork_with_reset_same_history. Qed.
 
 (* non-vacuity: a RawValue created in recycled dirty storage; the hypotheses of the isolation
    theorems hold for the objects of a concrete history; a complete fair schedule reaches 2*3 *)
